@@ -73,6 +73,7 @@ func suiteDiffReport(c *Ctx) error {
 	}
 	r := NewRng(c.Seed)
 	var lines []string
+	var tfpLines, tfpReal []string
 	type expect struct {
 		matched        []string
 		added, removed []string
@@ -525,6 +526,40 @@ func suiteDiffReport(c *Ctx) error {
 		eo, to := enc(oldRes)
 		en, tn := enc(newRes)
 		lines = append(lines, fmt.Sprintf("match\t%s\t%s\t%s", ratStr(models.DefaultTopologyMatchThreshold), eo, en))
+		// ---- the shape strings of the report (old_topology / new_topology): TopologyFingerprint of the
+		// paired functions' topologies, tied to Sfw.topoFingerprint (theorems C10_topology_fingerprint_*) ----
+		{
+			fpOf := func(res []diff.FingerprintResult, ts []*topology.FunctionTopology, short string) (string, bool) {
+				found, n := "", 0
+				for i, x := range res {
+					if ts[i] == nil {
+						continue
+					}
+					if x.FunctionName == short || normShort(x.FunctionName) == short || strings.HasSuffix(x.FunctionName, "."+short) {
+						found = topology.TopologyFingerprint(ts[i])
+						n++
+					}
+				}
+				return found, n == 1
+			}
+			for _, ts := range [][]*topology.FunctionTopology{to, tn} {
+				for _, tp := range ts {
+					if tp != nil {
+						tfpLines = append(tfpLines, "tfp\t"+encTopo(tp))
+						tfpReal = append(tfpReal, topology.TopologyFingerprint(tp))
+					}
+				}
+			}
+			for _, m := range out.TopologyMatches {
+				c.Res.Evaluations++
+				if want, ok := fpOf(oldRes, to, m.OldFunction); ok && want != m.OldTopology {
+					viol("C10", "C10/report-shape-string-is-not-the-functions-topology", fmt.Sprintf("old_topology of %s is %q, TopologyFingerprint of that function is %q", m.OldFunction, m.OldTopology, want))
+				}
+				if want, ok := fpOf(newRes, tn, m.NewFunction); ok && want != m.NewTopology {
+					viol("C10", "C10/report-shape-string-is-not-the-functions-topology", fmt.Sprintf("new_topology of %s is %q, TopologyFingerprint of that function is %q", m.NewFunction, m.NewTopology, want))
+				}
+			}
+		}
 		var e expect
 		for _, m := range out.TopologyMatches {
 			e.matched = append(e.matched, fmt.Sprintf("%s>%s:%s", hx(m.OldFunction), hx(m.NewFunction), b01(m.MatchedByName)))
@@ -602,6 +637,42 @@ func suiteDiffReport(c *Ctx) error {
 				c.Skip("band_pair_does_not_load")
 			}
 		}
+	}
+	// synthetic topologies: call maps of 0..12 entries (the report prints three names and a count), long
+	// and non-ASCII callee names, names that differ only after a common prefix
+	{
+		r := NewRng(c.Seed + 77)
+		for i := 0; i < 300; i++ {
+			tp := genTopo(r.Fork())
+			if i%3 == 0 {
+				tp.CallSignatures = map[string]int{}
+				n := r.Intn(13)
+				for k := 0; k < n; k++ {
+					name := []string{"fmt.Println", "fmt.Printf", "os.Getenv", "strings.ToLower", "invoke:func(int) int", "pkg/é.Ünï", "a", "a.b", "a,b", "zz.Z", "(*T).M", "go:closure", "builtin.len", "x/y.z", "fmt.Print"}[r.Intn(15)]
+					if r.Intn(4) == 0 {
+						name += fmt.Sprint(r.Intn(30))
+					}
+					tp.CallSignatures[name] = 1 + r.Intn(4)
+				}
+			}
+			c.Count(fmt.Sprintf("tfp_synthetic_calls_%s", map[bool]string{true: "over_3", false: "up_to_3"}[len(tp.CallSignatures) > 3]))
+			tfpLines = append(tfpLines, "tfp\t"+encTopo(tp))
+			tfpReal = append(tfpReal, topology.TopologyFingerprint(tp))
+		}
+		touts, err := RunModel(c.Model, "match", tfpLines)
+		if err != nil {
+			return err
+		}
+		for i, o := range touts {
+			c.Res.Evaluations++
+			got, derr := unhx(o)
+			if derr != nil || got != tfpReal[i] {
+				c.Res.ModelDiffs++
+				c.ViolateNoInput("C10", "C10/model-correspondence:TopologyFingerprint", fmt.Sprintf("impl %q model %q", tfpReal[i], got),
+					map[string]interface{}{"broken": "correspondence Sfw.topoFingerprint (theorems C10_topology_fingerprint_enumeration_invariant, C10_topology_fingerprint_truncates)", "line": tfpLines[i]})
+			}
+		}
+		c.CountN("tfp_lines", len(tfpLines))
 	}
 	mouts, err := RunModel(c.Model, "diffreport", lines)
 	if err != nil {
